@@ -3,6 +3,7 @@ package main
 import (
 	"fmt"
 	"go/ast"
+	"go/constant"
 	"go/token"
 	"go/types"
 	"strings"
@@ -239,10 +240,7 @@ func (x *Exec) execStmt(s ast.Stmt, st *State, env *Env) Flow {
 		return Flow{normal: st}
 	case *ast.IncDecStmt:
 		cur := x.eval(n.X, st, env)
-		one := Val{T: "1", Ty: cur.Ty}
-		if isByte(cur.Ty) {
-			one.T = "#x01"
-		}
+		one := Val{C: constant.MakeInt64(1)}
 		op := token.ADD
 		if n.Tok == token.DEC {
 			op = token.SUB
@@ -354,7 +352,8 @@ func (x *Exec) execAssign(n *ast.AssignStmt, st *State, env *Env) {
 			if u, ok := base.Ty.Underlying().(*types.Map); ok {
 				k := x.coerce(x.eval(r.Index, st, env), u.Key())
 				ms := x.c.mapSort(u)
-				v := Val{T: app("select", x.c.accessor("|"+ms+".val|", base.T), k.T), Ty: u.Elem()}
+				v := Val{T: x.c.define("mapval", x.c.sortOf(u.Elem()), app("select", x.c.accessor("|"+ms+".val|", base.T), k.T)), Ty: u.Elem()}
+				x.assumeWFAtom(st, v)
 				okv := Val{T: app("select", x.c.accessor("|"+ms+".dom|", base.T), k.T), Ty: tBool}
 				x.assign(n.Lhs[0], v, st, env)
 				x.assign(n.Lhs[1], okv, st, env)
@@ -682,8 +681,12 @@ func (x *Exec) havocLoop(body ast.Node, extra []types.Object, st *State, env *En
 		}
 	}
 	if ghosts {
+		allHandles, handles := x.ghostHandlesIn(body, st, env)
 		for _, k := range sortedGhostKeys(st.gh) {
 			v := st.gh[k]
+			if i := strings.Index(k, ":"); i >= 0 && !allHandles && !handles[k[i+1:]] {
+				continue
+			}
 			switch {
 			case strings.HasPrefix(k, "sent:"), strings.HasPrefix(k, "written:"):
 				s := *v.Seq
@@ -1153,4 +1156,95 @@ func (x *Exec) callEffects(n *ast.CallExpr, info *types.Info) (allocs, ghosts bo
 		}
 	}
 	return true, true, []string{"*"}
+}
+
+
+// ghostHandlesIn: the channel / writer handles whose ghost state a loop body may change
+func (x *Exec) ghostHandlesIn(body ast.Node, st *State, env *Env) (all bool, handles map[string]bool) {
+	handles = map[string]bool{}
+	info := env.info
+	termOf := func(e ast.Expr) (string, bool) {
+		if !isPath(e) {
+			return "", false
+		}
+		var v Val
+		func() {
+			defer func() { recover() }()
+			x.c.inContract++
+			defer func() { x.c.inContract-- }()
+			v = x.eval(e, st.clone(), env)
+		}()
+		return v.T, v.T != ""
+	}
+	ast.Inspect(body, func(nd ast.Node) bool {
+		switch n := nd.(type) {
+		case *ast.FuncLit:
+			return false
+		case *ast.SendStmt:
+			if t, ok := termOf(n.Chan); ok {
+				handles[t] = true
+			} else {
+				all = true
+			}
+		case *ast.CallExpr:
+			if id, ok := n.Fun.(*ast.Ident); ok {
+				if _, isB := info.Uses[id].(*types.Builtin); isB {
+					return true
+				}
+			}
+			if tv, ok := info.Types[n.Fun]; ok && tv.IsType() {
+				return true
+			}
+			fn := calleeOf(n, info)
+			if fn == nil {
+				all = true
+				return true
+			}
+			full := fn.FullName()
+			if pureLib[full] || full == "sort.Slice" || full == "sort.SliceStable" {
+				return true
+			}
+			if full == "(io.Writer).Write" {
+				if sel, ok := n.Fun.(*ast.SelectorExpr); ok {
+					if t, ok := termOf(sel.X); ok {
+						handles[t] = true
+						return true
+					}
+				}
+				all = true
+				return true
+			}
+			if fi := x.g.funcByObj[fn.Origin()]; fi != nil {
+				if con := x.g.cs.Funcs[fi.Key]; con != nil {
+					if con.Inline {
+						return true
+					}
+					for _, m := range con.Modifies {
+						id, ok := m.Expr.(*ast.Ident)
+						if !ok {
+							continue
+						}
+						for i := 0; i < fi.Sig.Params().Len() && i < len(n.Args); i++ {
+							p := fi.Sig.Params().At(i)
+							if p.Name() != id.Name {
+								continue
+							}
+							switch p.Type().Underlying().(type) {
+							case *types.Chan, *types.Interface:
+								if t, ok := termOf(n.Args[i]); ok {
+									handles[t] = true
+								} else {
+									all = true
+								}
+							}
+						}
+					}
+					return true
+				}
+			}
+			all = true
+		}
+		return true
+	})
+	return
 }
